@@ -395,7 +395,8 @@ pub fn run_monitor_case(case: &TxCase, stats: &mut Stats, focus: &str) -> Vec<Vi
     {
         let m = sys.monitor().expect("monitor mode");
         m.check_frame_snapshots = matches!(focus, "C06" | "C08" | "C25" | "C07");
-        m.check_access = matches!(focus, "C34" | "C25");
+        // (the access-set model covers Berlin..Prague, the range C34 states; EOF frames are not modelled)
+        m.check_access = matches!(focus, "C34" | "C25") && spec != SpecId::OSAKA;
         m.check_memory = matches!(focus, "C11" | "C25");
         m.trace = std::env::var("VERIF_TRACE").is_ok();
     }
